@@ -31,7 +31,11 @@ type Float struct{ F float64 }
 
 type Ptr struct {
 	Obj *Obj
-	// Unsafe marks a pointer that came through unsafe.Pointer (type erased)
+	// symbolic element pointer: &arr[Off+Idx] with Idx a term in [0,N) (Obj == nil then)
+	Arr *Obj
+	Off int
+	N   int
+	Idx *smt.Term
 }
 
 type Slice struct {
